@@ -44,7 +44,11 @@ class BitStore:
 
     def __init__(self, initializer: Union[int, bitarray.bitarray, str, None] = None,
                  immutable: bool = False) -> None:
-        self._bitarray = bitarray.bitarray(initializer)
+        if isinstance(initializer, bitarray.bitarray) and initializer.endian != 'big':
+            # Keep the sequence of bits, but store it big-endian like everything else, so that byte and integer conversions agree.
+            self._bitarray = bitarray.bitarray(initializer, endian='big')
+        else:
+            self._bitarray = bitarray.bitarray(initializer)
         self.immutable = immutable
         self.modified_length = None
 
